@@ -364,27 +364,20 @@ type g4Cond struct {
 
 // g4InMarkedRegion: block b executes only after the dedup recorded the announcement as new.
 func g4InMarkedRegion(d *c11Dedup, b *ssa.BasicBlock) bool {
-	var want ssa.Value
-	wantPol := false
-	if d.call == nil {
-		want, wantPol = d.ok, !d.okFound
-		if !(d.insert.Block() == b || d.insert.Block().Dominates(b)) {
-			return false
-		}
-		if d.insert.Block() == b {
-			return true
-		}
-	} else {
-		want = d.res
-		wantPol = d.newVal
-	}
-	if want == nil {
-		return false
-	}
 	if len(b.Instrs) == 0 {
 		return false
 	}
-	return c11FactHolds(b.Instrs[0], want, wantPol)
+	if d.call == nil {
+		// inline: on the not-found outcome and after the insertion on every such path
+		if d.insert.Block() == b {
+			return true
+		}
+		return c11NotFoundGuard(b.Instrs[0], d) && !c11ReachSkippingInsert(d, b.Instrs[0])
+	}
+	if d.res == nil {
+		return false
+	}
+	return c11FactHolds(b.Instrs[0], d.res, d.newVal)
 }
 
 // g4SkipBranches lists the skipping branches of entry point h after the mark (whole=false) or
@@ -419,7 +412,7 @@ func g4SkipBranches(cx *c11Flood, h *ssa.Function, d *c11Dedup, whole bool) []g4
 		if !ok || b.Succs[0] == b.Succs[1] {
 			continue
 		}
-		if c0, _ := c11Norm(ifi.Cond, true); c0 == d.ok || (d.res != nil && c0 == d.res) {
+		if c0, _ := c11Norm(ifi.Cond, true); d.isFoundTest(c0) || (d.res != nil && c0 == d.res) {
 			continue // the dedup test itself
 		}
 		r0, r1 := reachesFwd(b.Succs[0]), reachesFwd(b.Succs[1])
@@ -449,7 +442,7 @@ func g4SkipConds(cx *c11Flood, h *ssa.Function, d *c11Dedup, sk g4Skip, whole bo
 			continue
 		}
 		c, pol := c11Norm(g.Cond, g.Polarity)
-		if g4IsSelfSeenTest(cx, h, c) || c == d.ok || (d.res != nil && c == d.res) {
+		if g4IsSelfSeenTest(cx, h, c) || d.isFoundTest(c) || (d.res != nil && c == d.res) {
 			continue
 		}
 		out = append(out, g4Cond{c, g4WrapsDedup(d, c, pol)})
@@ -661,7 +654,12 @@ func g4MutableStateDeps(cx *c11Flood, mutable map[*types.Var]bool, cond ssa.Valu
 		})
 	}
 	g4Operands(cond, func(v ssa.Value) { note(v, "") }, func(c *ssa.Call) {
-		if cal := kit.CalleeOf(c); cal.Static != nil {
+		cal := kit.CalleeOf(c)
+		if c11IsStoreCall(cal) {
+			// whether the tables accepted / changed something is mutable routing-table state
+			set["the result of routing.Manager."+cal.Name+" (what the routing tables already hold)"] = true
+		}
+		if cal.Static != nil {
 			scan(cal.Static, 1)
 		}
 	})
@@ -742,8 +740,10 @@ func g4WrapsDedup(d *c11Dedup, cond ssa.Value, pol bool) bool {
 		if d.res != nil && f.cond == d.res && f.pol == d.newVal {
 			return true
 		}
-		if d.call == nil && d.ok != nil && f.cond == d.ok && f.pol == !d.okFound {
-			return true
+		if d.call == nil {
+			if ft, ok := d.foundTruth(f.cond); ok && f.pol != ft {
+				return true
+			}
 		}
 	}
 	return false
@@ -930,4 +930,129 @@ func c11MemberDesc(cond ssa.Value, chain []ssa.CallInstruction, depth int) (list
 		}
 	}
 	return nil, nil, nil, false, false
+}
+
+func (d *c11Dedup) isFoundTest(c ssa.Value) bool {
+	_, ok := d.foundTruth(c)
+	return ok
+}
+
+// ---------------------------------------------------------------- split horizon of full-table replays
+
+// g4SplitHorizon: in every flood function outside the forwarding chain that has an AgentID
+// parameter (the peer the table is sent to), a stored route record taken from a ranged list and
+// appended to what will be sent must be filtered by `record.NextHop != peer` — or the list must
+// come from a routing call that is given the peer and makes that comparison itself.
+func g4SplitHorizon(p *kit.Program, cx *c11Flood, r *kit.Report, rule string) {
+	n := 0
+	for _, fn := range cx.fns {
+		if cx.reach[fn] {
+			continue
+		}
+		var peers []*ssa.Parameter
+		for i, prm := range fn.Params {
+			if i == 0 && fn.Signature.Recv() != nil {
+				continue
+			}
+			if c11IsAgentID(cx, prm.Type()) {
+				peers = append(peers, prm)
+			}
+		}
+		if len(peers) == 0 {
+			continue
+		}
+		ord := 0
+		kit.Instrs(fn, func(in ssa.Instruction) {
+			c, ok := in.(*ssa.Call)
+			if !ok || kit.CalleeOf(c).Built != "append" || len(c.Call.Args) != 2 {
+				return
+			}
+			sl, ok := c.Call.Args[1].(*ssa.Slice)
+			if !ok {
+				return
+			}
+			a, ok := sl.X.(*ssa.Alloc)
+			if !ok || a.Referrers() == nil {
+				return
+			}
+			for _, ref := range *a.Referrers() {
+				ia, ok := ref.(*ssa.IndexAddr)
+				if !ok || ia.Referrers() == nil {
+					continue
+				}
+				for _, r2 := range *ia.Referrers() {
+					st, ok := r2.(*ssa.Store)
+					if !ok || st.Addr != ssa.Value(ia) {
+						continue
+					}
+					rec := st.Val
+					if !g4IsRouteRecord(c11NamedOf(rec.Type())) {
+						continue
+					}
+					list := c11ElemList(rec)
+					if list == nil {
+						continue // not an element of a ranged list
+					}
+					ord++
+					n++
+					key := fmt.Sprintf("%s replayed %s #%d filtered by learned-from peer", kit.FuncName(fn), c11NamedOf(rec.Type()).Obj().Name(), ord)
+					ok2 := false
+					for _, g := range c11Guards(c) {
+						bo, isB := g.Cond.(*ssa.BinOp)
+						if !isB || !((bo.Op == token.NEQ && g.Polarity) || (bo.Op == token.EQL && !g.Polarity)) {
+							continue
+						}
+						for _, pr := range [][2]ssa.Value{{bo.X, bo.Y}, {bo.Y, bo.X}} {
+							f, base := kit.LoadedField(pr[0])
+							if f == nil || f.Name() != "NextHop" || !(base == rec || c11SameLoad(base, rec)) {
+								continue
+							}
+							for _, peer := range peers {
+								if v, _ := c11Reduce(pr[1], nil); v == ssa.Value(peer) {
+									ok2 = true
+								}
+							}
+						}
+					}
+					if !ok2 {
+						// filter delegated to the routing call that produced the list
+						if lc, isCall := c12Deref(list).(*ssa.Call); isCall {
+							if cal := kit.CalleeOf(lc); cal.Static != nil && cal.Static.Blocks != nil {
+								for i, arg := range lc.Call.Args {
+									for _, peer := range peers {
+										if v, _ := c11Reduce(arg, nil); v == ssa.Value(peer) && i < len(cal.Static.Params) && g4ComparesNextHop(cal.Static, cal.Static.Params[i]) {
+											ok2 = true
+										}
+									}
+								}
+							}
+						}
+					}
+					r.Decide(ok2, rule, key, p.Pos(c.Pos()),
+						"routes learned from the peer the table is sent to are left out",
+						"a stored route is put into the full-table replay without the test `NextHop != peer`: routes go straight back over the link they were learned from, the peer stores them with a path through itself rejected only by its own loop check — or, for routes it originated, accepts a two-hop loop")
+				}
+			}
+		})
+	}
+	r.Count("replayed_route_selections", n)
+}
+
+// g4ComparesNextHop: fn compares the NextHop field of some record with its parameter prm.
+func g4ComparesNextHop(fn *ssa.Function, prm *ssa.Parameter) bool {
+	found := false
+	kit.Instrs(fn, func(in ssa.Instruction) {
+		bo, ok := in.(*ssa.BinOp)
+		if !ok || (bo.Op != token.EQL && bo.Op != token.NEQ) {
+			return
+		}
+		for _, pr := range [][2]ssa.Value{{bo.X, bo.Y}, {bo.Y, bo.X}} {
+			if f, _ := kit.LoadedField(pr[0]); f != nil && f.Name() == "NextHop" {
+				if v, _ := c11Reduce(pr[1], nil); v == ssa.Value(prm) {
+					found = true
+				}
+			}
+		}
+	})
+	return found
 }
